@@ -217,8 +217,10 @@ pub fn encode_apng_with(rng: &mut Rng, img: &HImg, extra_frames: usize, default_
     if let Some(t) = img.trns_bytes() {
         write_chunk(&mut out, b"tRNS", &t);
     }
-    for (n, d) in pre_idat {
-        write_chunk(&mut out, n, d);
+    // ancillary chunks may also sit between the default image's fcTL and its IDAT (legal, unusual)
+    let late: Vec<bool> = pre_idat.iter().map(|_| default_in_anim && rng.chance(1, 3)).collect();
+    for ((n, d), l) in pre_idat.iter().zip(&late) {
+        if !*l { write_chunk(&mut out, n, d); }
     }
     let mut seq = 0u32;
     let fctl = |seq: u32, w: u32, h: u32, x: u32, y: u32, rng: &mut Rng| -> Vec<u8> {
@@ -235,6 +237,9 @@ pub fn encode_apng_with(rng: &mut Rng, img: &HImg, extra_frames: usize, default_
     if default_in_anim {
         write_chunk(&mut out, b"fcTL", &fctl(seq, img.w, img.h, 0, 0, rng));
         seq += 1;
+        for ((n, d), l) in pre_idat.iter().zip(&late) {
+            if *l { write_chunk(&mut out, n, d); }
+        }
     }
     let filtered = img.filtered(|_| 0);
     // zero-length IDAT chunks are legal anywhere in the run (a leading one makes `from_slice` note the position twice)
